@@ -136,9 +136,10 @@ enum Fault {
     MissingEquals,
     MissingSubcommand,
     NonUtf8,
+    UnknownWord,
 }
 
-const FAULTS: [Fault; 12] = [
+const FAULTS: [Fault; 13] = [
     Fault::UnknownLong,
     Fault::UnknownShort,
     Fault::SurplusPositional,
@@ -151,6 +152,7 @@ const FAULTS: [Fault; 12] = [
     Fault::MissingEquals,
     Fault::MissingSubcommand,
     Fault::NonUtf8,
+    Fault::UnknownWord,
 ];
 
 /// the last level reached by the intent
@@ -408,6 +410,47 @@ fn inject(rng: &mut Rng, spec: &CmdSpec, intent: &LevelIntent, f: Fault) -> Opti
             let r = render(rng, spec, intent, &canon);
             Some((r.argv, vec![K::MissingSubcommand]))
         }
+        Fault::UnknownWord => {
+            // an unknown or misspelled plain word where only a subcommand name could stand: the
+            // last level has subcommands, no positional slot and no external subcommands
+            let mut it = intent.clone();
+            let (c, li) = last_level_mut(spec, &mut it);
+            if c.subs.is_empty() || !c.positionals().is_empty() || c.has(Setting::AllowExternalSubcommands) || li.external.is_some() {
+                return None;
+            }
+            if rng.coin() {
+                li.items.clear();
+            }
+            if !matches!(li.items.last(), None | Some(Item::Flag { .. })) {
+                return None;
+            }
+            let args_present = !li.items.is_empty();
+            let acws = c.has(Setting::ArgsConflictsWithSubcommands);
+            let word = if rng.coin() {
+                "zzwordq".to_string()
+            } else {
+                // a misspelling: a real name with one letter appended (never a prefix of a name)
+                format!("{}q", rng.pick(&c.subs).name)
+            };
+            let mut names = BTreeSet::new();
+            let (mut l, mut v) = (BTreeSet::new(), BTreeSet::new());
+            all_names(c, &mut l, &mut names, &mut v);
+            if names.iter().any(|n| n.starts_with(&word)) {
+                return None;
+            }
+            let follow = if rng.chance(1, 3) { Some(rng.pick(&c.subs).name.clone()) } else { None };
+            let r = render(rng, spec, &it, &canon);
+            let mut argv = r.argv;
+            argv.push(word.into());
+            if let Some(f) = follow {
+                argv.push(f.into());
+            }
+            // with args_conflicts_with_subcommands a word after a supplied argument is read as
+            // "a subcommand used with arguments"; with nothing supplied at this level no
+            // conflicting pair exists
+            let kinds = if acws && args_present { vec![K::ArgumentConflict, K::InvalidSubcommand] } else { vec![K::InvalidSubcommand] };
+            Some((argv, kinds))
+        }
         Fault::NonUtf8 => {
             let r = render(rng, spec, intent, &canon);
             // corrupt one positional/option value token that is delivered to a String parser
@@ -429,6 +472,9 @@ pub fn case(seed: u64, st: &mut Stats) {
     let mut rng = Rng::new(seed);
     let mut o = ConvOpts::full();
     o.typed = true;
+    // the fault injectors reason about "closed by the next dash token"; hyphen/negative values
+    // (covered by C02/C08) would make a single fault ambiguous
+    o.extended = false;
     let mut spec = conv_cmd(&mut rng, &o);
     // some levels demand a subcommand (MissingSubcommand fault); intents always choose one there
     fn require_subs(rng: &mut Rng, c: &mut CmdSpec) {
@@ -440,6 +486,16 @@ pub fn case(seed: u64, st: &mut Stats) {
         }
     }
     require_subs(&mut rng, &mut spec);
+    // some levels forbid mixing their own arguments with a subcommand; fault-free lines respect it
+    fn acws(rng: &mut Rng, c: &mut CmdSpec) {
+        if !c.subs.is_empty() && rng.chance(1, 3) {
+            c.set(Setting::ArgsConflictsWithSubcommands);
+        }
+        for s in c.subs.iter_mut() {
+            acws(rng, s);
+        }
+    }
+    acws(&mut rng, &mut spec);
     if rng.coin() {
         spec.version = Some("1.2.3".into());
     }
@@ -470,6 +526,15 @@ pub fn case(seed: u64, st: &mut Stats) {
             true
         }
         let complete = force_subs(&mut rng, &spec, &mut intent, &io);
+        fn respect_acws(c: &CmdSpec, li: &mut LevelIntent) {
+            if c.has(Setting::ArgsConflictsWithSubcommands) && li.sub.is_some() {
+                li.items.clear();
+            }
+            if let Some((si, ch)) = li.sub.as_mut() {
+                respect_acws(&c.subs[*si], ch);
+            }
+        }
+        respect_acws(&spec, &mut intent);
         // (a) the fault-free line is accepted
         if complete {
             let sty = Style::random(&mut rng);
